@@ -70,12 +70,19 @@ cdef class QueryScheduler:
     cdef public dict _next_scheduled_for_alias
     cdef public list _query_heap
     cdef object _next_run
+    cdef double _next_run_millis
+    cdef double _earliest_next_run_millis
     cdef double _clock_resolution_millis
     cdef object _question_type
 
     cdef void _schedule_ptr_refresh(self, DNSPointer pointer, double expire_time_millis, double refresh_time_millis)
 
     cdef void _schedule_ptr_query(self, _ScheduledPTRQuery scheduled_query)
+
+    @cython.locals(next_when_millis=double)
+    cdef void _rearm_if_earlier(self, double when_millis)
+
+    cdef void _arm_ready_types(self, double when_millis)
 
     @cython.locals(scheduled=_ScheduledPTRQuery)
     cpdef void cancel_ptr_refresh(self, DNSPointer pointer)
